@@ -24,6 +24,7 @@ type hop struct {
 	UIDLen int
 	MsgLen int
 	Seed   uint64
+	Args   uint64 // argument discipline for this step, see argset
 }
 
 const (
@@ -100,18 +101,20 @@ func checkHistory(c histCase, rec *h.Rec) error {
 	signCalls := 0
 	for i, op := range c.Ops {
 		rec.Label(opName(op.Op))
+		args := newArgs(op.Args, rec)
 		step := fmt.Sprintf("step %d/%d (%s) on the key object d=%x built by %s", i+1, len(c.Ops), opName(op.Op), []byte(c.D), ctorNames[c.Ctor])
 		if op.Op >= opVerifyLast {
 			if last == nil {
 				continue
 			}
 			if op.Op == opVerifyLast {
+				lastV.args = args
 				if err := acceptEverywhere("an earlier step", pub, lastV, last); err != nil {
 					return fmt.Errorf("%s: %v", step, err)
 				}
 				continue
 			}
-			cand := candCase{Kind: "history-mutated", PubX: ref.Bytes32(pub.X), PubY: ref.Bytes32(pub.Y), DigestMode: true, Digest: lastV.e}
+			cand := candCase{Kind: "history-mutated", PubX: ref.Bytes32(pub.X), PubY: ref.Bytes32(pub.Y), DigestMode: true, Digest: lastV.e, Args: op.Args}
 			sig := cp(last.sig)
 			sig[int(op.Seed%uint64(len(sig)))] ^= byte(1 << (op.Seed >> 32 % 8))
 			if err := checkCand(cand.withSig(sig), &h.Rec{}); err != nil {
@@ -141,7 +144,7 @@ func checkHistory(c histCase, rec *h.Rec) error {
 		if !sg.msgMode {
 			digest = gen.Fill(gen.Mix(op.Seed, 0x6469), 32)
 		}
-		o := runSigner(id, rnd, priv, uid, msg, digest, op.Seed)
+		o := runSigner(id, rnd, priv, uid, msg, digest, op.Seed, args)
 		mustFail := !valid || op.Op == opSignLongUID
 		if mustFail || (op.Op == opSignNoRand && o.err != nil) {
 			if err := o.failedCleanly(sg); err != nil {
@@ -159,7 +162,7 @@ func checkHistory(c histCase, rec *h.Rec) error {
 		if err := o.normalise(sg); err != nil {
 			return fmt.Errorf("%s: %v", step, err)
 		}
-		v := &vctx{pub: libPub(pub)}
+		v := &vctx{pub: libPub(pub), args: args}
 		if sg.msgMode {
 			v.msgMode, v.uid, v.msg = true, uid, o.msg
 			v.e = ref.SM2Digest(effUID(uid), pub, o.msg)
@@ -170,7 +173,14 @@ func checkHistory(c histCase, rec *h.Rec) error {
 			return fmt.Errorf("%s: the signature does not satisfy the verification equation: uid=%s msg=%s digest=%x sig=%x", step, h.Hex(uid), h.Hex(msg), v.e, o.sig)
 		}
 		for _, ep := range bytesEPs[:2] {
-			if ep.ok(v) && !ep.f(v, o.sig) {
+			if !ep.ok(v) {
+				continue
+			}
+			got, aerr := ep.call(v, o.sig)
+			if aerr != nil {
+				return fmt.Errorf("%s: %v", step, aerr)
+			}
+			if !got {
 				return fmt.Errorf("%s: %s rejects the signature just made: uid=%s msg=%s digest=%x sig=%x", step, ep.name, h.Hex(uid), h.Hex(msg), v.e, o.sig)
 			}
 		}
@@ -217,10 +227,15 @@ func TestC06_HistoryInvalidKey(t *testing.T) {
 					for b := opSignFirst; b <= opSignLast; b++ {
 						for c := opSignFirst; c <= opSignLast; c++ {
 							seed := gen.Mix(h.Seed, uint64(a), uint64(b), uint64(c))
+							// a quarter of the histories plain, the rest with argument flavours / scribbling
+							var a1, a2, a3 uint64
+							if (a+b+c)%4 != 0 {
+								a1, a2, a3 = gen.Mix(seed, 1)|argFlavoured, gen.Mix(seed, 2)|argFlavoured, gen.Mix(seed, 3)|argFlavoured
+							}
 							emit(histCase{D: d, Ctor: ctor, Ops: []hop{
-								{Op: a, UIDLen: 0, MsgLen: 3, Seed: seed},
-								{Op: b, UIDLen: 16, MsgLen: 0, Seed: seed + 1},
-								{Op: c, UIDLen: 1, MsgLen: 70, Seed: seed + 2}}})
+								{Op: a, UIDLen: 0, MsgLen: 3, Seed: seed, Args: a1},
+								{Op: b, UIDLen: 16, MsgLen: 0, Seed: seed + 1, Args: a2},
+								{Op: c, UIDLen: 1, MsgLen: 70, Seed: seed + 2, Args: a3}}})
 						}
 					}
 				}
@@ -262,6 +277,7 @@ func TestC06_History(t *testing.T) {
 				UIDLen: rapid.SampledFrom([]int{0, 0, 1, 16, 64, 200}).Draw(rt, "uidLen"),
 				MsgLen: rapid.SampledFrom([]int{0, 1, 32, 100, 1000}).Draw(rt, "msgLen"),
 				Seed:   rapid.Uint64().Draw(rt, "seed"),
+				Args:   drawArgs(rt),
 			})
 		}
 		return c
